@@ -89,6 +89,10 @@ SHAPES = {
     "name": (["nosuch{i}"], (0, 0), (), "name"),
     "attr": (["o.nosuch{i}"], (0, 0), (), "attr"),
     "fstr": (["f\"a{(boom {i})}b\""], (0, 0), (), "call"),
+    # an augmented assignment whose in-place operation itself raises (o.acc.__iadd__ raises Marker(v)):
+    # one operand, and several operands (documented as (+= x (+ a b)))
+    "aug1": (["(+= o.acc", "{i}", ")"], (0, 2), (), "raise"),
+    "aug2": (["(+= o.acc", "{i}", "0", ")"], (0, 3), (), "raise"),
     # ---- the raising form is the ARGUMENT of a user macro: it keeps its own position
     "arg_ident": (["(m-ident", "(boom {i})", ")"], (1, 1), ("m-ident",), "call"),
     "arg_qq": (["(m-qq", "(boom {i})", ")"], (1, 1), ("m-qq",), "call"),
@@ -99,11 +103,18 @@ SHAPES = {
     "tmpl_deep": (["(t-deep", "{i}", ")"], (0, 2), ("t-deep",), "call"),
     "tmpl_raise": (["(t-raise", "{i}", ")"], (0, 2), ("t-raise",), "raise"),
     "tmpl_fstr": (["(t-fstr", "{i}", ")"], (0, 2), ("t-fstr",), "call"),
+    # the macro returns a model object that is created ONCE (a quoted parameter default) and the macro
+    # is expanded at two places; the first expansion (never executed) is on the leaf's second line
+    "tmpl_shared": (["(do", "(when False (t-shared 0))", "(t-shared", "{i}", ")", ")"], (2, 4), ("t-shared",), "shared"),
+    "tmpl_shared_atom": (["(do", "(when False (t-shared-atom 0))", "(t-shared-atom", "{i}", ")", ")"], (2, 4), ("t-shared-atom",), "shared"),
     # "ptmpl": the PARENT form of the leaf is a macro template (generated per case), see render_program
 }
-SHAPE_ORDER = ["plain", "split", "meth", "dotmeth", "raise", "div", "index", "name", "attr", "fstr",
-               "arg_ident", "arg_qq", "arg_splice", "arg_nested", "tmpl", "tmpl_deep", "tmpl_raise", "tmpl_fstr", "ptmpl"]
-TEMPLATE_SHAPES = ("tmpl", "tmpl_deep", "tmpl_raise", "tmpl_fstr", "ptmpl")
+SHAPE_ORDER = ["plain", "split", "meth", "dotmeth", "raise", "div", "index", "name", "attr", "fstr", "aug1", "aug2",
+               "arg_ident", "arg_qq", "arg_splice", "arg_nested", "tmpl", "tmpl_deep", "tmpl_raise", "tmpl_fstr",
+               "tmpl_shared", "tmpl_shared_atom", "ptmpl"]
+TEMPLATE_SHAPES = ("tmpl", "tmpl_deep", "tmpl_raise", "tmpl_fstr", "tmpl_shared", "tmpl_shared_atom", "ptmpl")
+# macros that hold a model object of their own: defined afresh for every case
+STATEFUL_MACROS = ("t-shared", "t-shared-atom")
 ARG_SHAPES = ("arg_ident", "arg_qq", "arg_splice", "arg_nested")
 
 MACROS = {
@@ -116,6 +127,8 @@ MACROS = {
     "t-deep": "(defmacro t-deep [n] `[(log 0 0) (boom ~n)])",
     "t-raise": "(defmacro t-raise [n] `(raise (Marker ~n)))",
     "t-fstr": "(defmacro t-fstr [n] `f\"a{(boom ~n)}\")",
+    "t-shared": "(defmacro t-shared [n [form '(nosuch-shared 1)]] form)",
+    "t-shared-atom": "(defmacro t-shared-atom [n [form 'nosuch-shared]] form)",
 }
 
 # whole-term wrappers: the complete term (with the raising leaf somewhere inside)
